@@ -495,8 +495,11 @@ class LoopMixin:
                     self.oblige(out, f"{tag}/hint#{k}", hg, clause=hint, site=node.lineno)
                     out.assume(hg)
                 for k, inv in enumerate(invs):
-                    self.oblige(out, f"{tag}/preserve#{k}", self.spec_truth(inv, out.env, out), clause=inv,
-                                site=node.lineno)
+                    g = self.spec_truth(inv, out.env, out)
+                    self.oblige(out, f"{tag}/preserve#{k}", g, clause=inv, site=node.lineno)
+                    if lc.get("cut"):
+                        # cut rule: a clause proved for the state after the body may be used for the later clauses
+                        out.assume(g)
                 if dec0 is not None:
                     dec1 = self.spec_val(lc["decreases"], out.env, out)
                     self.oblige(out, f"{tag}/decreases", z3.And(dec0.t >= 0, dec1.t < dec0.t),
